@@ -125,6 +125,13 @@ def build(d):
         desc['problem_params']['bogus_param'] = 1
     elif f == 'bad_initial_guess':
         desc['sweeper_params']['initial_guess'] = 'bogus'
+    elif f.startswith('residual_type_'):
+        desc['level_params']['residual_type'] = {'residual_type_max_abs': 'max_abs', 'residual_type_fullrel': 'fullrel', 'residual_type_abs': 'abs',
+                                                 'residual_type_full_abs_rel': 'full_abs_rel'}[f]
+    elif f == 'initial_guess_Spread':
+        desc['sweeper_params']['initial_guess'] = 'Spread'  # names are case sensitive
+    elif f == 'QI_lu':
+        desc['sweeper_params']['QI'] = 'lu'
     elif f == 'bad_residual_type':
         desc['level_params']['residual_type'] = 'bogus'
     return desc, cp
